@@ -109,7 +109,38 @@ struct WrapIt {
   bool operator<=(const WrapIt &o) const { return p <= o.p; }
   bool operator>=(const WrapIt &o) const { return p >= o.p; }
 };
+template <class T>
+struct MStream {
+  T *data;
+  size_t size, cursor;
+  unsigned rereads, readsAfterEof;
+  std::vector<unsigned char> readCount;
+  MStream(T *d, size_t n) : data(d), size(n), cursor(0), rereads(0), readsAfterEof(0), readCount(n, 0) {}
+};
+template <class T>
+struct MInputIt {
+  typedef std::input_iterator_tag iterator_category;
+  typedef T value_type;
+  typedef std::ptrdiff_t difference_type;
+  typedef T *pointer;
+  typedef T &reference;
+  MStream<T> *s;
+  MInputIt() : s(nullptr) {}
+  explicit MInputIt(MStream<T> *st) : s(st) {}
+  bool at_end() const { return !s || s->cursor >= s->size; }
+  reference operator*() const {
+    if (at_end()) { ++s->readsAfterEof; return s->data[s->size ? s->size - 1 : 0]; }
+    if (s->readCount[s->cursor]++) ++s->rereads;
+    return s->data[s->cursor];
+  }
+  pointer operator->() const { return &**this; }
+  MInputIt &operator++() { if (s && s->cursor < s->size) ++s->cursor; return *this; }
+  MInputIt operator++(int) { MInputIt t = *this; ++*this; return t; }
+  bool operator==(const MInputIt &o) const { return at_end() == o.at_end(); }
+  bool operator!=(const MInputIt &o) const { return !(*this == o); }
+};
 template <class T> T *base_of(T *p) { return p; }
+template <class T> T *base_of(MInputIt<T> it) { return it.s ? it.s->data + it.s->cursor : nullptr; }
 template <class T, class C> T *base_of(WrapIt<T, C> it) { return it.p; }
 template <class T> T *base_of(std::move_iterator<T *> it) { return it.base(); }
 
@@ -121,10 +152,10 @@ static const char *kAlgoNames[] = {"construct_at", "construct_at_copy", "constru
                                    "uninitialized_copy_n", "uninitialized_move", "uninitialized_move_n", "uninitialized_default_construct",
                                    "uninitialized_default_construct_n", "uninitialized_value_construct", "uninitialized_value_construct_n",
                                    "uninitialized_relocate", "uninitialized_relocate_n", "relocate_at", "construct_at_array", "destroy_at_array"};
-enum IterKind { I_PTR = 0, I_RA, I_BIDI, I_FWD, I_MOVE, I_NITER };
-static const char *kIterNames[] = {"pointer", "random_access", "bidirectional", "forward", "move_iterator"};
-enum ValKind { VAL_TRIV = 0, VAL_TR, VAL_NONTR, VAL_THROWMOVE, VAL_NVAL };
-static const char *kValNames[] = {"trivial", "ETr", "ENonTr", "EThrowMove"};
+enum IterKind { I_PTR = 0, I_RA, I_BIDI, I_FWD, I_MOVE, I_INPUT, I_NITER };
+static const char *kIterNames[] = {"pointer", "random_access", "bidirectional", "forward", "move_iterator", "single_pass_input"};
+enum ValKind { VAL_TRIV = 0, VAL_TR, VAL_NONTR, VAL_THROWMOVE, VAL_AGG, VAL_NVAL };
+static const char *kValNames[] = {"trivial", "ETr", "ENonTr", "EThrowMove", "aggregate"};
 
 struct Case {
   int algo, len, iter, val, throwIdx;
@@ -135,6 +166,8 @@ static void fail(const std::string &s) { if (g_fail.empty()) g_fail = s; }
 static volatile int g_inCase = 0;
 static Case g_cur;
 
+template <class T> struct IsAggVal { static const bool value = false; };
+template <> struct IsAggVal<EAgg> { static const bool value = true; };
 template <class T> struct IsTrivVal { static const bool value = false; };
 template <> struct IsTrivVal<ETriv> { static const bool value = true; };
 
@@ -176,6 +209,12 @@ struct Runner {
     static std::pair<It, T *> reloc_n(It f, int n, T *d) { return amc::uninitialized_relocate_n(f, n, d); }
   };
   template <class U>
+  struct RelocCall<MInputIt<U> > {
+    typedef MInputIt<U> It;
+    static T *reloc(It, It, T *d) { return d; }
+    static std::pair<It, T *> reloc_n(It f, int, T *d) { return std::pair<It, T *>(f, d); }
+  };
+  template <class U>
   struct RelocCall<std::move_iterator<U> > {
     typedef std::move_iterator<U> It;
     static T *reloc(It, It, T *d) { return d; }
@@ -183,9 +222,12 @@ struct Runner {
   };
 
   template <class It>
+  static It make_last(It first, int n) { std::advance(first, n); return first; }
+  static MInputIt<T> make_last(MInputIt<T>, int) { return MInputIt<T>(); }
+
+  template <class It>
   void run_range_algo(const Case &c, It first) {
-    It last = first;
-    std::advance(last, n);
+    It last = make_last(first, n);
     bool threw = false;
     T *ret = nullptr;
     It retIt = first;
@@ -210,7 +252,7 @@ struct Runner {
     if (!threw) {
       if (c.throwIdx >= 0 && G.faultFired) fail("fault fired but no exception propagated");
       if (ret != dst + n) fail("returned destination iterator is not dest + n");
-      if (hasRetIt && base_of(retIt) != base_of(first) + n) fail("returned source iterator is not first + n");
+      if (hasRetIt && base_of(retIt) != src + n) fail("returned source iterator is not first + n");
       check_dst_values(n, kAlgoNames[c.algo]);
       long expectCreated = (reloc && amc::is_trivially_relocatable<T>::value) ? 0 : n;  // a byte-wise relocation creates no object
       if (T::kHooks && g_elems.liveArmed - live0 != expectCreated) fail("number of objects created in the destination is not n");
@@ -219,7 +261,7 @@ struct Runner {
         int st = T::state_of(src[i]);
         if (reloc) {
           if (amc::is_trivially_relocatable<T>::value) { /* bytes copied, source is dead storage: its identity now lives in dst */ }
-          else if (st != ES_DEAD && st != ES_GARBAGE) fail("relocate: source object was not destroyed");
+          else if (T::kHooks && st != ES_DEAD && st != ES_GARBAGE) fail("relocate: source object was not destroyed");
         } else if (moves) {
           if (T::kHooks && st != ES_MOVED && !IsTrivVal<T>::value) fail("move: source object is not in a moved-from state");
         } else if (st != ES_ALIVE) {
@@ -299,6 +341,9 @@ struct Runner {
           for (int i = 0; i < n && g_fail.empty(); ++i) {
             if (IsTrivVal<T>::value) {
               if (value && (dst[i].k() != 0 || dst[i].p() != 0)) fail("value construction of a trivial type did not zero it");
+            } else if (IsAggVal<T>::value) {
+              if (dst[i].p() != 7) fail("default/value construction did not run the member's default constructor");
+              else if (value && dst[i].k() != 0) fail("value construction did not zero-initialise a member without initialiser (it default-initialised instead)");
             } else if (T::state_of(dst[i]) != ES_ALIVE || dst[i].k() != 0) fail("default/value construction built a wrong object");
           }
           if (T::kHooks && g_elems.liveArmed - live0 != n) fail("number of objects created is not n");
@@ -316,7 +361,7 @@ struct Runner {
         if (!threw) {
           if (ret != dst) fail("relocate_at did not return dest");
           check_dst_values(1, "relocate_at");
-          if (!amc::is_trivially_relocatable<T>::value && alive(src[0])) fail("relocate_at: source was not destroyed");
+          if (T::kHooks && !amc::is_trivially_relocatable<T>::value && alive(src[0])) fail("relocate_at: source was not destroyed");
           destroy_dst(1);
           destroy_sources(1);
         } else {
@@ -332,6 +377,13 @@ struct Runner {
           case I_RA: run_range_algo(c, WrapIt<T, std::random_access_iterator_tag>(src)); break;
           case I_BIDI: run_range_algo(c, WrapIt<T, std::bidirectional_iterator_tag>(src)); break;
           case I_FWD: run_range_algo(c, WrapIt<T, std::forward_iterator_tag>(src)); break;
+          case I_INPUT: {
+            MStream<T> st(src, (size_t)n);
+            run_range_algo(c, MInputIt<T>(&st));
+            if (g_fail.empty() && st.rereads) fail("single-pass input range: an element was read twice");
+            if (g_fail.empty() && st.readsAfterEof) fail("single-pass input range: read past its end");
+            if (g_fail.empty() && !G.faultFired && st.cursor != (size_t)n) fail("single-pass input range: not exactly n elements were consumed");
+          } break;
           default: run_range_algo(c, std::make_move_iterator(src)); break;
         }
         break;
@@ -397,6 +449,7 @@ static bool exec_case(const Case &c) {
       case VAL_TRIV: { Runner<ETriv> r; r.run_case(c); } break;
       case VAL_TR: { Runner<ETr> r; r.run_case(c); } break;
       case VAL_NONTR: { Runner<ENonTr<true> > r; r.run_case(c); } break;
+      case VAL_AGG: { Runner<EAgg> r; r.run_case(c); } break;
       default: { Runner<EThrowMove> r; r.run_case(c); } break;
     }
   }
@@ -432,7 +485,7 @@ static bool applicable(const Case &c) {
   bool range = c.algo >= A_UCOPY && c.algo <= A_UMOVE_N;
   bool reloc = c.algo == A_URELOC || c.algo == A_URELOC_N;
   if (!range && !reloc && c.iter != I_PTR) return false;
-  if (reloc && c.iter == I_MOVE) return false;  // relocating through a move_iterator makes no sense
+  if (reloc && (c.iter == I_MOVE || c.iter == I_INPUT)) return false;  // relocation needs a multi-pass, lvalue source
   if ((c.algo == A_CONSTRUCT_AT_ARRAY || c.algo == A_DESTROY_AT_ARRAY) && c.val != VAL_NONTR && c.val != VAL_THROWMOVE) return false;
   return true;
 }
